@@ -1,6 +1,15 @@
 import ShuttleModel.Prim.Base
 /-
   Barrier — transcription of shuttle-std/src/sync/barrier.rs.
+
+  Two layers (same style as `Prim/Sem.lean`):
+  * pure atomic transitions on `BarrierState` (`willBlock`, `arrive`, `takeLeader`) — `arrive` is
+    everything `wait` does between its optional scheduling point and either blocking or releasing
+    the group; `takeLeader` is the tail of `wait` (it runs after the context switch for a blocked
+    arrival and in the same segment for the releasing one);
+  * the `Prog` wrapper `wait` that only sequences them, `runEffs`, the clock requests, `K.block` and
+    `K.switch`.
+  A failing assertion leaves the part of the state written before it in place: `arriveOnPanic`.
 -/
 namespace ShuttleModel
 
@@ -14,51 +23,98 @@ structure BarrierState where
   clock : Clock := Clock.new
 deriving Repr, Inhabited
 
+/-- how the first part of `Barrier::wait` ended; both carry `my_epoch` -/
+inductive BarrierArrival where
+  /-- fewer than `bound` arrivals so far: the caller blocks and switches -/
+  | blocked (myEpoch : Nat)
+  /-- the caller completed the group and released it; it goes on without a scheduling point -/
+  | released (myEpoch : Nat)
+deriving Repr, DecidableEq, Inhabited
+
+def BarrierArrival.myEpoch : BarrierArrival → Nat
+  | .blocked e => e
+  | .released e => e
+
+namespace BarrierState
+
+/-- `state.waiters.len() + 1 < state.bound` (decides whether `wait` starts with a `switch`) -/
+def willBlock (s : BarrierState) : Bool := s.waiters.length + 1 < s.bound
+
+/-- the `for tid in waiters` loop of the releasing arrival: `t.clock.increment(tid);
+t.clock.update(&clock); t.unblock()`; `clk` = the tasks' clocks when the loop starts (the
+drained ids are pairwise distinct, so no iteration sees the effect of an earlier one) -/
+def releaseEffs (clk : Nat → Clock) (c : Clock) : List Nat → List Eff
+  | [] => []
+  | tid :: rest =>
+    -- increment the task's own component, then join the barrier clock
+    Eff.joinClock tid (((clk tid).increment tid).update c) :: Eff.unblock tid :: releaseEffs clk c rest
+
+/-- `Barrier::wait` from `let my_epoch = state.epoch` up to (excluding) the `block`/`switch` of a
+non-final arrival, or up to the end of the releasing `else` branch.  `c` = the caller's clock
+after `increment_clock()`, `clk` = the clocks of the tasks at that moment. -/
+def arrive (s : BarrierState) (me : Nat) (c : Clock) (clk : Nat → Clock) :
+    Except String (BarrierState × BarrierArrival × List Eff) :=
+  let myEpoch := s.epoch
+  let s := { s with clock := s.clock.update c }
+  if s.waiters.contains me then .error "assertion failed: state.waiters.insert(ExecutionState::me())" else
+  let s := { s with waiters := s.waiters ++ [me] }
+  if s.waiters.length < s.bound then .ok (s, .blocked myEpoch, [])
+  else if !(s.waiters.length == s.bound || s.bound == 0) then
+    .error "assertion failed: state.waiters.len() == state.bound || state.bound == 0"
+  else if s.leaderTokens.contains myEpoch then
+    .error "assertion failed: state.leader_tokens.insert(my_epoch)"
+  else
+    let drained := s.waiters
+    let s := { s with leaderTokens := s.leaderTokens ++ [myEpoch], waiters := [], epoch := s.epoch + 1 }
+    .ok (s, .released myEpoch, releaseEffs clk s.clock drained)
+
+/-- what a failing assertion of `arrive` leaves behind: the barrier clock is updated; the caller
+is in `waiters` unless it was the `insert` that failed -/
+def arriveOnPanic (s : BarrierState) (me : Nat) (c : Clock) : BarrierState :=
+  let s := { s with clock := s.clock.update c }
+  if s.waiters.contains me then s else { s with waiters := s.waiters ++ [me] }
+
+/-- `self.state.borrow_mut().leader_tokens.remove(&my_epoch)` -/
+def takeLeader (s : BarrierState) (myEpoch : Nat) : BarrierState × Bool :=
+  ({ s with leaderTokens := s.leaderTokens.filter (· != myEpoch) }, s.leaderTokens.contains myEpoch)
+
+end BarrierState
+
 namespace Barrier
 variable {U : Type}
 
-/-- the `for tid in waiters` loop of the releasing arrival: `t.clock.increment(tid);
-t.clock.update(&clock); t.unblock()` -/
-def releaseAll (c : Clock) : List Nat → Prog U Unit
-  | [] => pure ()
-  | tid :: rest => do
-    let tc ← K.clockOf tid
-    -- increment the task's own component, then join the barrier clock
-    K.joinClockOf tid ((tc.increment tid).update c)
-    K.unblock tid
-    releaseAll c rest
+/-- `get_clock(t)` for each listed task (plain reads) -/
+def clockSnapshot : List Nat → Prog U (Nat → Clock)
+  | [] => pure (fun _ => Clock.new)
+  | t :: ts => do
+    let c ← K.clockOf t
+    let f ← clockSnapshot ts
+    pure (fun x => if x == t then c else f x)
 
 /-- `Barrier::wait` → `is_leader` -/
 def wait (L : Lens U BarrierState) : Prog U Bool := do
   let s ← K.getL L
-  let willBlock := s.waiters.length + 1 < s.bound
-  if !willBlock then K.switch else pure ()
+  if !s.willBlock then K.switch else pure ()
   let me ← K.me
-  let s ← K.getL L
-  let myEpoch := s.epoch
   let c ← K.incClock
-  let s := { s with clock := s.clock.update c }
-  K.setL L s
-  if s.waiters.contains me then K.panic "assertion failed: state.waiters.insert(ExecutionState::me())" else do
-  let s := { s with waiters := s.waiters ++ [me] }
-  K.setL L s
-  if s.waiters.length < s.bound then do
-    K.block false
-    K.switch
-  else do
-    if !(s.waiters.length == s.bound || s.bound == 0) then
-      K.panic "assertion failed: state.waiters.len() == state.bound || state.bound == 0"
-    else if s.leaderTokens.contains myEpoch then
-      K.panic "assertion failed: state.leader_tokens.insert(my_epoch)"
-    else do
-      let drained := s.waiters
-      let s := { s with leaderTokens := s.leaderTokens ++ [myEpoch], waiters := [], epoch := s.epoch + 1 }
-      K.setL L s
-      releaseAll s.clock drained
   let s ← K.getL L
-  let isLeader := s.leaderTokens.contains myEpoch
-  K.setL L { s with leaderTokens := s.leaderTokens.filter (· != myEpoch) }
-  pure isLeader
+  let clk ← clockSnapshot (s.waiters ++ [me])
+  match s.arrive me c clk with
+  | .error msg => do
+    K.setL L (s.arriveOnPanic me c)
+    K.panic msg
+  | .ok (s', arrival, effs) => do
+    K.setL L s'
+    runEffs effs
+    match arrival with
+    | .blocked _ => do
+      K.block false
+      K.switch
+    | .released _ => pure ()
+    let s ← K.getL L
+    let (s', isLeader) := s.takeLeader arrival.myEpoch
+    K.setL L s'
+    pure isLeader
 
 end Barrier
 end ShuttleModel
